@@ -28,6 +28,16 @@ class RecordingSource:
         self.bad = []
         self._lock = threading.Lock()
 
+    def __getstate__(self):
+        # picklable (the lock is per process): a collection over a recording source can be serialised
+        d = dict(self.__dict__)
+        d.pop("_lock", None)
+        return d
+
+    def __setstate__(self, d):
+        self.__dict__.update(d)
+        self._lock = threading.Lock()
+
     def __getitem__(self, idx):
         import numpy as np
         if not isinstance(idx, tuple):
